@@ -34,6 +34,21 @@ theorem C11_roundtrip_or_raises (c : NContent) (hc : Canonical c) (h : refsSrcOk
     roundTrip [] c = .ok c.toContent ∨ ∃ m, roundTrip [] c = .error (.valueError m) :=
   roundTrip_or_raises c hc h
 
+/-- **Round trip, every model, no hypothesis on names or arguments** (after `fix: refuse to generate MxlPy source
+    for two different functions with the same name`): executing the generated source rebuilds *the same model*, or
+    no source is produced because generation raised ValueError (two different functions of derived quantities /
+    reactions with one name, or a definition that would repeat a parameter). -/
+theorem C11_roundtrip_or_raises_all (c : NContent) (hc : Canonical c) :
+    roundTrip [] c = .ok c.toContent ∨ ∃ m, roundTrip [] c = .error (.valueError m) :=
+  roundTrip_or_raises_all c hc
+
+/-- … in terms of behaviour: whenever the round trip produces a model at all, it is the original — every model -/
+theorem C11_roundtrip_model_is_original (c : NContent) (hc : Canonical c)
+    (c' : Content) (h : roundTrip [] c = .ok c') : c' = c.toContent := by
+  rcases roundTrip_or_raises_all c hc with h1 | ⟨m, h1⟩
+  · rw [h1] at h; cases h; rfl
+  · rw [h1] at h; cases h
+
 /-- … with the hypothesis on the input alone: no `__name__` shared by two different derived / reaction function
     objects -/
 theorem C11_roundtrip_or_raises_input (c : NContent) (hc : Canonical c) (hk : keysInjective c = true) :
@@ -93,8 +108,8 @@ theorem C11_roundtrip_queries (c : NContent) (hc : Canonical c) (h : refsResolve
       ∧ (∀ vars t, getRhsQ c' vars t = getRhsQ c.toContent vars t) :=
   ⟨_, roundTrip_ok c hc h, rfl, rfl, fun _ _ => rfl, fun _ _ => rfl, fun _ _ => rfl⟩
 
-/-- **The full statement is false of the unchanged code (F-C11-1).**  Two different functions named `f`:
-    the rebuilt model's derivative at x = 1 differs from the original's. -/
+/-- **"Preserves behaviour" without "or fails" is false.**  Two different functions named `f` (former F-C11-1):
+    generation refuses, so there is no rebuilt model whose derivative could equal the original's. -/
 theorem C11_roundtrip_full_false :
     ¬ (∀ c : NContent, Canonical c → ∀ t xs, rtCall [] c t xs = callRhs c.toContent t xs) := by
   intro h
@@ -104,11 +119,12 @@ theorem C11_roundtrip_full_false :
   revert h2
   decide +kernel
 
-/-- F-C11-1 witness, concretely: the original gives dx/dt = -(1*2)*(1+2) = -6, the rebuilt model -4 or -9 -/
+/-- former F-C11-1 witness, concretely: the original gives dx/dt = -(1*2)*(1+2) = -6; generation now raises
+    ValueError (it used to emit one `def f` for both functions: the rebuilt model gave -4 or -9) -/
 theorem C11_collision_witness :
     resEq (callRhs wCollide.toContent 0 [1]) (.ok [-6]) = true
-    ∧ resEq (rtCall [] wCollide 0 [1]) (.ok [-6]) = false
-    ∧ refsResolve wCollide = false := by decide +kernel
+    ∧ isValueError (roundTrip [] wCollide) = true
+    ∧ refsResolve wCollide = false ∧ keysInjective wCollide = false := by decide +kernel
 
 /-- former F-C11-2 witness (repaired): `mass_action_2s(A, A, k)` would be emitted as
     `def mass_action_2s(A, A, k)`; generation now raises ValueError instead of emitting a module that is not
